@@ -131,7 +131,7 @@ def check(run):
     run.include('C13', {'cherab/core/math/mappers.pyx', 'cherab/core/math/mask.pyx', 'cherab/core/math/clamp.pyx'},
                 'map3d / map_vector3d / inside_lcfs are built from the axisymmetric mappers, the polygon mask and the output clamp')
     from ..cachekey import check_caches
-    check_caches(run, [m for k, m in prog.modules.items() if k.startswith('cherab.tools.equilibrium') and not k.endswith('#pxd')], 'C12-K')
+    check_caches(run, [m for k, m in prog.modules.items() if k.startswith('cherab.tools.equilibrium') and not k.endswith('#pxd')], 'C12-K', prog=prog)
 
 
 def _ret_vec(ci, run, K):
